@@ -19,3 +19,29 @@ package trafficpattern
 //@   ensures old(c.original.Nonce) != nil && old(c.original.Nonce.MinLen) != nil ==> *c.effective.Nonce.MinLen == old(*c.original.Nonce.MinLen)
 //@   ensures old(c.original.Nonce) != nil && old(c.original.Nonce.MaxLen) != nil ==> *c.effective.Nonce.MaxLen == old(*c.original.Nonce.MaxLen)
 //@   ensures 0 <= *c.effective.Nonce.MinLen && *c.effective.Nonce.MinLen <= *c.effective.Nonce.MaxLen && *c.effective.Nonce.MaxLen <= 12
+//@
+//@ func (c *Config) generatePaddingPattern(seed int, unlockAll bool)
+//@   property C16
+//@   mode int
+//@   noframe
+//@   requires c != nil && c.original != nil && c.effective != nil
+//@   requires c.original.Padding == nil ==> c.effective.Padding == nil
+//@   requires c.original.Padding != nil ==> c.effective.Padding != nil && c.effective.Padding != c.original.Padding && (c.effective.Padding.MaxMiddlePaddingLen == nil <==> c.original.Padding.MaxMiddlePaddingLen == nil) && (c.effective.Padding.MaxEndPaddingLen == nil <==> c.original.Padding.MaxEndPaddingLen == nil) && pbi(c.effective.Padding.MaxMiddlePaddingLen) == pbi(c.original.Padding.MaxMiddlePaddingLen) && pbi(c.effective.Padding.MaxEndPaddingLen) == pbi(c.original.Padding.MaxEndPaddingLen)
+//@   requires c.original.Padding != nil ==> (0 <= pbi(c.original.Padding.MaxMiddlePaddingLen) && pbi(c.original.Padding.MaxMiddlePaddingLen) <= 255 && 0 <= pbi(c.original.Padding.MaxEndPaddingLen) && pbi(c.original.Padding.MaxEndPaddingLen) <= 255)
+//@   ensures c.effective.Padding != nil && c.effective.Padding.MaxMiddlePaddingLen != nil && c.effective.Padding.MaxEndPaddingLen != nil
+//@   ensures old(c.original.Padding) != nil && old(c.original.Padding.MaxMiddlePaddingLen) != nil ==> *c.effective.Padding.MaxMiddlePaddingLen == old(*c.original.Padding.MaxMiddlePaddingLen)
+//@   ensures old(c.original.Padding) != nil && old(c.original.Padding.MaxEndPaddingLen) != nil ==> *c.effective.Padding.MaxEndPaddingLen == old(*c.original.Padding.MaxEndPaddingLen)
+//@   ensures 0 <= *c.effective.Padding.MaxMiddlePaddingLen && *c.effective.Padding.MaxMiddlePaddingLen <= 255 && 0 <= *c.effective.Padding.MaxEndPaddingLen && *c.effective.Padding.MaxEndPaddingLen <= 255
+//@
+//@ func (c *Config) generateTCPFragment(seed int, unlockAll bool)
+//@   property C16
+//@   mode int
+//@   noframe
+//@   requires c != nil && c.original != nil && c.effective != nil
+//@   requires c.original.TcpFragment == nil ==> c.effective.TcpFragment == nil
+//@   requires c.original.TcpFragment != nil ==> c.effective.TcpFragment != nil && c.effective.TcpFragment != c.original.TcpFragment && (c.effective.TcpFragment.Enable == nil <==> c.original.TcpFragment.Enable == nil) && (c.effective.TcpFragment.MaxSleepMs == nil <==> c.original.TcpFragment.MaxSleepMs == nil) && pbi(c.effective.TcpFragment.MaxSleepMs) == pbi(c.original.TcpFragment.MaxSleepMs)
+//@   requires c.original.TcpFragment != nil ==> 0 <= pbi(c.original.TcpFragment.MaxSleepMs) && pbi(c.original.TcpFragment.MaxSleepMs) <= 100
+//@   ensures c.effective.TcpFragment != nil && c.effective.TcpFragment.Enable != nil && c.effective.TcpFragment.MaxSleepMs != nil
+//@   ensures old(c.original.TcpFragment) != nil && old(c.original.TcpFragment.MaxSleepMs) != nil ==> *c.effective.TcpFragment.MaxSleepMs == old(*c.original.TcpFragment.MaxSleepMs)
+//@   ensures 0 <= *c.effective.TcpFragment.MaxSleepMs && *c.effective.TcpFragment.MaxSleepMs <= 100
+//@   ensures !unlockAll && (old(c.original.TcpFragment) == nil || old(c.original.TcpFragment.Enable) == nil) ==> !*c.effective.TcpFragment.Enable
